@@ -76,6 +76,14 @@ impl<const SENDER: bool> RawChannel<SENDER> {
         self.claimed = true;
     }
 
+    /// Marks the channel end as closed without notifying the broker.
+    ///
+    /// This is used when a claim has been refused by the broker. There is then nothing to close,
+    /// because the end is either gone already or owned by someone else.
+    pub(crate) fn set_closed(&mut self) {
+        self.state = State::Closed;
+    }
+
     fn begin_close(&mut self) -> Result<CloseChannelEndFuture, Error> {
         self.client
             .close_channel_end(self.cookie, Self::channel_end(), self.claimed)
